@@ -20,7 +20,7 @@ RULE = ("a case marks a random subset of fields (text, host, integer, boolean, b
         "sensitive position equals the unmasked rendering (non-sensitive AES secrets are compared by decrypting), "
         "mask None changes nothing, documents decode to the masked tree; non-trivial = >= 2 sensitive non-empty "
         "positions at >= 2 depths and >= 1 non-sensitive position; distinct = distinct case content")
-REQUIRED = ("virtual_renderings_checked", "lists_reassigned_from_own_items", "sensitive_lists_checked", "unmasked_reference_checks", "trees_scanned", "documents_scanned", "sensitive_positions_checked", "nonsensitive_positions_checked",
+REQUIRED = ("virtual_documents_scanned", "virtual_renderings_checked", "lists_reassigned_from_own_items", "sensitive_lists_checked", "unmasked_reference_checks", "trees_scanned", "documents_scanned", "sensitive_positions_checked", "nonsensitive_positions_checked",
             "mask:none", "mask:empty", "mask:one-char", "mask:multi-char", "sensitive_in_list_items", "sensitive_in_ctype",
             "sensitive_at_depth>=2")
 ASSUMPTIONS = ["the length rule (mask character repeated to the value's length) is asserted for text values only",
@@ -227,6 +227,11 @@ def run(case, ctx, res):
             res.viol("M-mask", "to_tree-virtual-raises", "to_tree(virtual=True, sensitive_mask=%r) raised %r" % (mask, exc))
             return
         res.count("virtual_renderings_checked")
+        # everything else must be rendered exactly as without virtual=True (same masking at every depth)
+        if not _check_tree(res, vtree, plain_tree, positions, mask, mname, key, "tree(virtual=True)"):
+            return
+        if mask is not None and not _check_sensitive_lists(res, vtree, stoks, mask, "tree(virtual=True)"):
+            return
         vt = lay.get("vtok") or "tkffffffffffffffff"
         for vpath, text in ((["vsecret"], vt + "-virtual"), (["sub", "vsecret"], vt + "-subvirtual")):
             got = _dig(vtree, vpath) if _has(vtree, vpath) else "<missing>"
@@ -271,6 +276,22 @@ def run(case, ctx, res):
                 return
             if mask is not None and not _check_sensitive_lists(res, back, stoks, mask, fmt):
                 return
+            if mask is not None and trees.in_domain(fmt, vtree):
+                try:
+                    vblob = cfg.dumps(fmt, virtual=True, sensitive_mask=mask)
+                    vback = cc.ConfigFormat.get(fmt).loads(cfg, vblob)
+                except Exception as exc:
+                    res.viol("M-mask", "dumps-raises:virtual:" + fmt, "dumps(%s, virtual=True, sensitive_mask=%r) raised %r" % (fmt, mask, exc))
+                    return
+                res.count("virtual_documents_scanned")
+                for path, kind, sens, v in positions:
+                    tok = _token_of(v)
+                    if sens and tok and find_token(vblob, tok):
+                        res.viol("M-leak", "document(virtual=True):%s" % _where(path), "%s document rendered with virtual=True and mask %r "
+                                 "contains the sensitive value at %s (%s)" % (fmt, mask, _p(path), find_token(vblob, tok)))
+                        return
+                if not _check_tree(res, vback, plain_tree, positions, mask, mname, key, fmt + "(virtual=True)"):
+                    return
     sens_pos = [(p, v) for p, k, s, v in positions if s and _nonempty(v) and k != "b"]
     if len(sens_pos) >= 2 and len({len(p) for p, _v in sens_pos}) >= 2 and any(not s for _p2, _k, s, _v in positions):
         res.nontrivial(case["layout"], case["masks"], case["fmts"])
